@@ -6,7 +6,7 @@ import json, os, subprocess, sys, tempfile, shutil, multiprocessing, re
 BIN = os.environ.get("ASV_BIN", "/verif/bin/asverif")
 
 def run(m):
-    d = tempfile.mkdtemp(prefix="mutc-", dir="/tmp")
+    d = tempfile.mkdtemp(prefix="mutc-", dir="/var/tmp")
     try:
         subprocess.run("git -C /repo archive HEAD | tar -x -C %s" % d, shell=True, check=True)
         p = os.path.join(d, m["file"])
